@@ -819,6 +819,8 @@ def rule_contfresh(ctx):
 
 
 RULES = [
+    ("C04.STRICTFLAG", 10, common.shared("c07", "rule_strictflag", "C04.STRICTFLAG")),
+    ("C04.NESTEDCONJ", 4, common.shared("c07", "rule_nestedconj", "C04.NESTEDCONJ")),
     ("C04.ARIFORM", 1, common.shared("c16", "rule_ariform", "C04.ARIFORM")),
     ("C04.FORWARD", 1, common.shared("c05", "rule_subset", "C04.FORWARD", keep=lambda o: "transcription_velocity" in o.construct)),
     ("C04.BEATTRIM", 1, common.shared("c03", "rule_beattrim", "C04.BEATTRIM")),
